@@ -411,3 +411,30 @@ pub(crate) fn validate_block_size(size: usize) -> Result<(), String> {
     }
     Ok(())
 }
+
+/// Verification entry point (deterministic-simulation harness only): the same
+/// parse + `run` + exit-code mapping as `main()`, minus the global tracing
+/// subscriber, plus re-exports of the wire types for the simulated hub clients.
+#[cfg(paiml_copia_verif)]
+pub mod verif_entry {
+    pub use super::reconcile::{FileType, Fingerprint};
+    pub use super::wire::{read_frame, write_frame, write_magic, Request, Response};
+
+    pub async fn run_cli(args: Vec<String>) -> i32 {
+        use clap::Parser as _;
+        let cli = match super::Cli::try_parse_from(args) {
+            Ok(c) => c,
+            Err(e) => {
+                super::eprintln!("{e}");
+                return 2;
+            }
+        };
+        match super::run(cli).await {
+            Ok(()) => 0,
+            Err(e) => {
+                super::eprintln!("Error: {e}");
+                1
+            }
+        }
+    }
+}
